@@ -193,6 +193,14 @@ def check_nav(c, st):
     def snap(u):
         return (u.to_text(), {a: getattr(u, a) for a in ('scheme', 'username', 'password', 'host', 'port', 'fragment')},
                 tuple(u.path_parts), u.query_params.items(multi=True))
+    def denotes_itself(nd):
+        # does the text of this prepared reference object still denote the same reference?  (from_parts() cannot be
+        # told that a host is an IPv6 literal and writes it without brackets: such objects are not used as references)
+        try:
+            return snap(uu.URL(nd.to_text())) == snap(nd)
+        except uu.URLParseError:
+            st.count('prepared-reference-objects-whose-text-does-not-parse')
+            return False
     try:
         b = uu.URL(base)
         if c.get('prep') == 'normalize':
@@ -233,7 +241,7 @@ def check_nav(c, st):
                 if c.get('ref_prep') == 'normalize':
                     nd = uu.URL(ref)
                     nd.normalize()
-                    if snap(uu.URL(nd.to_text())) == snap(nd):      # its text still denotes the same reference
+                    if denotes_itself(nd):      # its text still denotes the same reference
                         dest, ref = nd, nd.to_text()
                 elif c.get('ref_prep') in ('edited-query', 'built-from-parts'):
                     # a reference object whose query was set through the API, not parsed from a text
@@ -246,7 +254,7 @@ def check_nav(c, st):
                                                query_params=p0.query_params.items(multi=True) + [('zz-q', 'built')],
                                                fragment=p0.fragment, port=p0.port, username=p0.username,
                                                password=p0.password)
-                    if snap(uu.URL(nd.to_text())) == snap(nd):
+                    if denotes_itself(nd):
                         dest, ref = nd, nd.to_text()
                         st.count('refs-with-api-set-query')
                 elif c.get('ref_prep') in ('navigated', 'from_parts') and dest.scheme and dest.host:
@@ -259,7 +267,7 @@ def check_nav(c, st):
                         nd = uu.URL.from_parts(scheme=p0.scheme, host=p0.host, path_parts=p0.path_parts,
                                                query_params=p0.query_params.items(multi=True), fragment=p0.fragment,
                                                port=p0.port, username=p0.username, password=p0.password)
-                    if snap(uu.URL(nd.to_text())) == snap(nd):
+                    if denotes_itself(nd):
                         dest, ref = nd, nd.to_text()
             eff_refs.append(ref)
             prev_text = cur.to_text()
@@ -504,7 +512,8 @@ def gen_ref(r, maxseg=8):
     ref = path + ('?' + q if q is not None else '') + ('#' + f if f is not None else '')
     if k > 0.93:
         ref = r.choice(['http://other/x/../y', 'https://Other.Example/a/./b?q=1#z', 'ftp://u@o:21/', 'http://o',
-                        'http://other/p/q?k=v&l=w', 'https://o.example/?x=1#f', 'http://u:p@o:8080/a?b=c'])
+                        'http://other/p/q?k=v&l=w', 'https://o.example/?x=1#f', 'http://u:p@o:8080/a?b=c',
+                        'http://[::1]/y', 'https://[2001:db8::1]:8443/a/../b?q#f', 'http://u@[::ffff:10.0.0.1]/', 'http://10.0.0.7:81/x/./y'])
     return ref
 
 
